@@ -337,7 +337,9 @@ def stalled_terminal(ctx, build, ncalls, size, delay_ms):
     d = drv.Driver(ctx.run, build, timeout_ms=60000)
     out = d.out
     try:
-        ini = gen.render_ini([(b"output", b"devtty"), (b"message_format", b"%{cmdline}")])
+        # (limits above the record size: the default data-source limit of 2047 bytes would cut a 4000-byte command line by design)
+        ini = gen.render_ini([(b"output", b"devtty"), (b"message_format", b"%{cmdline}"), (b"datasource_message_max_length", b"65535"),
+                              (b"log_message_max_length", b"65535")])
         capture = out + "/tty-capture"
         ops = [drv.op("f"), drv.op("T", "lazy", delay_ms, capture), drv.op("C", ini)]
         want = []
